@@ -164,6 +164,17 @@ def main():
         if old == new:
             errs.append("NamespacesHandler::getNamespace / copyExcludeResultPrefixes not recognised")
         flags["handlerOwnFirst"] = new
+    b = body_of(ea, "ElemAttribute::startElement(StylesheetExecutionContext&")
+    if b is not None:
+        n = norm(b)
+        old = ("const bool fPrefixIsXMLNS = startsWith(origAttrName, DOMServices::s_XMLNamespaceWithSeparator);" in n
+               and "if (startsWith(origAttrName, DOMServices::s_XMLString) == true)" in n)
+        new = ("const bool fPrefixIsXMLNS = startsWith(origAttrName, DOMServices::s_XMLNamespaceWithSeparator) || startsWith(origAttrName, DOMServices::s_XMLStringWithSeparator);" in n
+               and "if (startsWith(origAttrName, DOMServices::s_XMLStringWithSeparator) == true)" in n
+               and "else if (equals(attrNameSpace, DOMServices::s_XMLNamespaceURI) == true && startsWith(origAttrName, DOMServices::s_XMLStringWithSeparator) == true) { }" in n)
+        if old == new:
+            errs.append("ElemAttribute::startElement: handling of the xml prefix not recognised")
+        flags["xmlPrefixExact"] = new
     if errs:
         print("\n".join(errs))
         return 1
